@@ -137,7 +137,7 @@ def load_findings():
 
 
 def write_replay(pid, sig, case):
-    d = os.path.join(ROOT, "replays", pid)
+    d = os.path.join(os.environ.get("VERIF_REPLAY_DIR", os.path.join(ROOT, "replays")), pid)
     os.makedirs(d, exist_ok=True)
     body = {"property": pid, "signature": sig, "case": _jsonable(case)}
     txt = json.dumps(body, sort_keys=True, indent=1)
@@ -211,7 +211,7 @@ def main(argv=None):
         exit_code = 1
         print("  signature=%s cases=%d first=%s" % (sig, ctx.vcount[sig],
               json.dumps(_jsonable(case), sort_keys=True)[:600]))
-        print("VIOLATION property=%s replay=%s" % (pid, os.path.relpath(path, ROOT)))
+        print("VIOLATION property=%s replay=%s" % (pid, os.path.relpath(path, ROOT) if path.startswith(ROOT) else path))
 
     wall = time.time() - ctx.t0
     level = mod.LEVEL
